@@ -131,6 +131,26 @@ pub mod k {
         anchor(&v);
         v
     }
+    /// Environment values that only flow into ghost tables (token secrets, pre-drawn digests of the
+    /// uninterpreted functions, random bytes): drawn as anchored u64 words and reinterpreted, because
+    /// Kani's concrete playback leaves whole-array draws out of the generated test when the array is
+    /// only copied into a static (the native replay would then hand the following scalar values to
+    /// the wrong draws).  Sizes up to 64 bytes; loop-free.
+    pub fn env<T: Copy>() -> T {
+        let n = std::mem::size_of::<T>();
+        assert!(n <= 64, "verif_env::k::env draws at most 64 bytes");
+        let w: [u64; 8] = [
+            if n > 0 { any() } else { 0 },
+            if n > 8 { any() } else { 0 },
+            if n > 16 { any() } else { 0 },
+            if n > 24 { any() } else { 0 },
+            if n > 32 { any() } else { 0 },
+            if n > 40 { any() } else { 0 },
+            if n > 48 { any() } else { 0 },
+            if n > 56 { any() } else { 0 },
+        ];
+        unsafe { std::ptr::read(w.as_ptr() as *const T) }
+    }
     #[cfg(not(verif_replay))]
     fn anchor<T>(v: &T) {
         let n = std::mem::size_of::<T>();
@@ -143,6 +163,37 @@ pub mod k {
         macro_rules! tail { ($($k:expr),*) => { $( if n < 256 && base + $k < n { acc ^= (unsafe { *p.add(base + $k) } as u128) << (8 * $k); } )* } }
         tail!(0, 1, 2, 3, 4, 5, 6, 7, 8, 9, 10, 11, 12, 13, 14);
         ::kani::cover!(n == 0 || acc != 0x5a5a, "verif-anchor");
+    }
+}
+
+/// Decimal `Display` for `i64` / `usize` without std's lookup-table formatter and `pad_integral`:
+/// plain digits (and a leading '-') written with one `write_str`.  Equivalent to std for the `{}`
+/// placeholders without width / fill / sign flags that the crate uses; validated natively against
+/// `to_string()` at setup (bin/setup) and by every native replay (which runs std's formatter).
+pub mod dec {
+    use std::fmt;
+    fn write_dec(mut n: u64, neg: bool, f: &mut fmt::Formatter<'_>) -> fmt::Result {
+        let mut buf = [0u8; 21];
+        let mut i = 21;
+        loop {
+            i -= 1;
+            buf[i] = b'0' + (n % 10) as u8;
+            n /= 10;
+            if n == 0 {
+                break;
+            }
+        }
+        if neg {
+            i -= 1;
+            buf[i] = b'-';
+        }
+        f.write_str(unsafe { std::str::from_utf8_unchecked(&buf[i..]) })
+    }
+    pub fn i64_display(v: &i64, f: &mut fmt::Formatter<'_>) -> fmt::Result {
+        write_dec(v.unsigned_abs(), *v < 0, f)
+    }
+    pub fn usize_display(v: &usize, f: &mut fmt::Formatter<'_>) -> fmt::Result {
+        write_dec(*v as u64, false, f)
     }
 }
 
